@@ -58,7 +58,8 @@ Inductive op :=
 | OSetnth (v : var) (i : nat) (x : Z)
 | ONreverse (src dst : var)
 | ONconc (a b dst : var)
-| OSort (src dst : var).
+| OSort (src dst : var)
+| ORemove (x : Z) (src dst : var).            (* remove and delete build a new list by appending *)
 
 (* insertion sort: the result of sorting integers by < is unique *)
 Fixpoint insert (x : Z) (l : list Z) : list Z :=
@@ -167,6 +168,9 @@ Definition step (st : state) (o : op) (cap : nat) : state :=
       | None => setv st dst None
       | Some s => setv {| hp := write_all h (s_arr s) (s_off s) (isort (contents h (Some s))); vars := vars st |} dst (Some s)
       end
+  | ORemove x src dst =>
+      let '(h', r) := alloc h (filter (fun y => negb (Z.eqb x y)) (contents h (getv st src))) cap in
+      setv {| hp := h'; vars := vars st |} dst (Some r)
   | ONconc a b dst =>
       let cb := contents h (getv st b) in
       match getv st a with
